@@ -337,6 +337,12 @@ impl SDJWTVerifier {
                     .as_str()
                     .ok_or(Error::ConversionError("str".to_string()))?
                     .to_owned();
+                if key == SD_DIGESTS_KEY || key == SD_LIST_PREFIX || key == DIGEST_ALG_KEY {
+                    return Err(Error::InvalidDisclosure(format!(
+                        "Disclosed claim name {} is reserved",
+                        key
+                    )));
+                }
                 let value = disclosure[2].clone();
                 if pre_output.contains_key(&key) {
                     return Err(Error::DuplicateKeyError(key.to_string()));
